@@ -7,7 +7,7 @@ use serde::{Deserialize, Serialize};
 use serde_json::json;
 use std::time::{Duration, Instant};
 
-pub const RULE: &str = "sessions of 3-40 commands over {isready, ucinewgame, position <generated game>, setoption (Hash 1-4, Move Overhead), go finite (depth 1-5 | movetime 5-60 ms | small clocks), go infinite, stop, quit} against the shipped binary; a third of the sessions open with the first search of the process (or of a new game) on a special root - exactly one legal move, dead material, fortress, forced mate - under each kind of go, followed by stop / isready; the driver keeps the session conforming (go/ucinewgame/position/setoption only when no bestmove is outstanding: it waits for the bestmove of a finite go, or sends stop first) and the generator chooses the timing of every command: in the same write as the previous one (stop / isready directly behind go), after 0-30 ms, or immediately after the engine's bestmove; per session a delay vector for the hook-H2 points (before the search thread takes the mutex, after the search, after bestmove is printed, after the latch is set, after ucinewgame resets the latch, before stop waits) of 0 or 15-40 ms each widens the microsecond windows. Model: every isready is answered by readyok within 10 s; every go gets exactly one bestmove (finite: by itself; infinite: after stop), never two; stop and ucinewgame return (the closing isready is answered); after quit the process exits with status 0. A missing answer is a violation only on evidence from /proc: readyok owed and the input thread asleep without CPU use for 3 s; bestmove owed and all threads asleep for 3 s; or bestmove owed and the engine still computing 30 s after a search limited to < 1 s or told to stop. Anything merely slow is inconclusive. A 'very_long_session' part keeps one process alive for max_map_count/2 + 4000 searches (about 36 800) and demands every bestmove, readyok and a clean exit. A 'latch_handover' part exercises the completion latch itself (reset / set by one thread, wait by another, 20000 hand-overs per case with generated jitter): once set() has returned, wait() must return. Non-trivial = session with a go and at least one of: stop after the search ended by itself, ucinewgame between a finished search and a stop, stop in the same write as go, a command sent inside a widened H2 window; distinct by (commands, timings, delays).";
+pub const RULE: &str = "sessions of 3-40 commands over {isready, ucinewgame, position <generated game>, setoption (Hash 1-4, Move Overhead), go finite (depth 1-5 | movetime 5-60 ms | small clocks), go infinite, stop, quit} against the shipped binary; a third of the sessions open with the first search of the process (or of a new game) on a special root - exactly one legal move, dead material, fortress, forced mate - under each kind of go, followed by stop / isready; the driver keeps the session conforming (go/ucinewgame/position/setoption only when no bestmove is outstanding: it waits for the bestmove of a finite go, or sends stop first) and the generator chooses the timing of every command: in the same write as the previous one (stop / isready directly behind go), after 0-30 ms, or immediately after the engine's bestmove; per session a delay vector for the hook-H2 points (before the search thread takes the mutex, after the search, after bestmove is printed, after the latch is set, after ucinewgame resets the latch, before stop waits) of 0 or 15-40 ms each widens the microsecond windows. Model: every isready is answered by readyok within 10 s; every go gets exactly one bestmove (finite: by itself; infinite: after stop), never two; stop and ucinewgame return (the closing isready is answered); after quit the process exits with status 0. A missing answer is a violation only on evidence from /proc: readyok owed and the input thread asleep without CPU use for 3 s; bestmove owed and all threads asleep for 3 s; or bestmove owed and the engine still computing 30 s after a search limited to < 1 s or told to stop. Anything merely slow is inconclusive. A 'very_long_session' part keeps one process alive for max_map_count/2 + 4000 searches (about 36 800) and demands every bestmove, readyok and a clean exit. A 'very_long_game' part sends games of 1000-1500 plies in one position command and demands readyok, the bestmove of a depth search, the bestmove of an infinite search after stop and a clean quit. A 'latch_handover' part exercises the completion latch itself (reset / set by one thread, wait by another, 20000 hand-overs per case with generated jitter): once set() has returned, wait() must return. Non-trivial = session with a go and at least one of: stop after the search ended by itself, ucinewgame between a finished search and a stop, stop in the same write as go, a command sent inside a widened H2 window; distinct by (commands, timings, delays).";
 
 #[derive(Serialize, Deserialize, Clone, Debug, PartialEq)]
 pub enum Timing {
@@ -555,6 +555,83 @@ pub fn run(run: &mut Run) -> &'static str {
             Ok(())
         });
         run.workers = old;
+    }
+    // Very long games: a GUI that does not adjudicate sends `position startpos moves ...` with more than
+    // a thousand plies. The command, a following isready, a depth search, an infinite search ended by
+    // stop and a clean quit are all owed as for any other history.
+    {
+        let games: Vec<u64> = if run.tier == Tier::Quick { (0..6).collect() } else { (0..60).collect() };
+        let seed = run.seed;
+        run.exhaustive_part("very_long_game", RULE, games, move |g: &u64, st: &mut Stats| {
+            st.eval();
+            // a legal game by the reference model: weighted random walk that never plays into a position
+            // without legal moves; 1000-1500 plies
+            let data: Vec<u16> = (0..4000u64).map(|i| (hash_of(&(seed, *g, i)) >> 7) as u16).collect();
+            let mut t = Tape::new(&data);
+            let target = 1000 + t.pick(500);
+            let mut cur = crate::refchess::Pos::start();
+            let mut moves: Vec<String> = vec![];
+            while moves.len() < target {
+                let legal = cur.legal_moves();
+                let mut chosen = None;
+                for _ in 0..6 {
+                    let m = legal[t.pick(legal.len())];
+                    // keep material on the board: captures only now and then
+                    if m.capture && t.pick(8) != 0 {
+                        continue;
+                    }
+                    let next = cur.make(&m);
+                    if !next.legal_moves().is_empty() {
+                        chosen = Some((m, next));
+                        break;
+                    }
+                }
+                if chosen.is_none() {
+                    // any move that keeps the game going
+                    chosen = legal.iter().map(|m| (*m, cur.make(m))).find(|(_, n)| !n.legal_moves().is_empty());
+                }
+                let Some((m, next)) = chosen else { break };
+                moves.push(m.uci());
+                cur = next;
+            }
+            st.class_n("plies_in_very_long_games", moves.len() as u64);
+            if std::env::var("VERIF_DEBUG").is_ok() { eprintln!("very_long_game {g}: {} plies, final {}", moves.len(), cur.to_fen()); }
+            if moves.len() > 1024 {
+                st.nontrivial(&(*g, moves.len()));
+                st.nontrivial_sample(json!({"plies": moves.len(), "final_position": cur.to_fen()}));
+            }
+            let cmd = format!("position startpos moves {}", moves.join(" "));
+            let ex = || json!({"Explicit": {"delays": "", "steps": [
+                {"cmd": "setoption name Hash value 1", "timing": {"AfterMs": 0}}, {"cmd": cmd, "timing": {"AfterMs": 0}}, {"cmd": "isready", "timing": {"AfterMs": 0}},
+                {"cmd": "go depth 4", "timing": {"AfterMs": 0}}, {"cmd": "go infinite", "timing": "AfterBestmove"}, {"cmd": "stop", "timing": {"AfterMs": 30}}, {"cmd": "isready", "timing": {"AfterMs": 0}}, {"cmd": "quit", "timing": {"AfterMs": 0}}]}});
+            let io = |e: String| Fail::new("binary:io", format!("engine process: {e}"));
+            let mut e = Engine::spawn(&[]).map_err(io)?;
+            e.send("setoption name Hash value 1").map_err(io)?;
+            let wait = |e: &mut Engine, what: &str, pred: &dyn Fn(&str) -> bool| -> Result<(), Fail> {
+                loop {
+                    match e.read_line(Duration::from_secs(60)) {
+                        Ok(Some(l)) if pred(&l) => return Ok(()),
+                        Ok(Some(l)) if l.contains("panic") => return Err(Fail::new("long_game:engine_died", format!("after a position command with {} plies: waiting for {what}, the engine printed '{l}'", moves.len())).explicit(ex())),
+                        Ok(Some(_)) => {}
+                        Ok(None) => return Err(Fail::new("long_game:engine_died", format!("after a position command with {} plies: output ended while waiting for {what}", moves.len())).explicit(ex())),
+                        Err(x) => return Err(Fail::new("long_game:no_answer", format!("after a position command with {} plies: {what} did not arrive: {x}", moves.len())).explicit(ex())),
+                    }
+                }
+            };
+            e.send(&cmd).map_err(io)?;
+            e.send("isready").map_err(io)?;
+            wait(&mut e, "readyok", &|l| l == "readyok")?;
+            e.send("go depth 4").map_err(io)?;
+            wait(&mut e, "the bestmove of go depth 4", &|l| l.starts_with("bestmove"))?;
+            e.send("go infinite").map_err(io)?;
+            std::thread::sleep(Duration::from_millis(30));
+            e.send("stop").map_err(io)?;
+            wait(&mut e, "the bestmove after stop", &|l| l.starts_with("bestmove"))?;
+            e.send("isready").map_err(io)?;
+            wait(&mut e, "readyok", &|l| l == "readyok")?;
+            e.quit();
+            Ok(())
+        });
     }
     // The hand-over that `stop` relies on, at the latch itself: the search thread sets the latch when it
     // is done, the input thread waits on it, ucinewgame resets it. Two real threads repeat that
